@@ -460,3 +460,7 @@ def run(ctx):
     _run_main_nf(ctx)
     _NF.narrow_oracles(ctx, 'C08', _narrow_table())
     ctx.flush()
+
+
+# evidence: how the model is tied to the source on every run (as built, supersedes the value above)
+TIE = 'translator (both integration rules and the alias -> Gen/Displ, calc_peak -> Gen/ImSimple; Props/C08Gen, C09Sem) + correspondence (exact on dyadic-safe inputs) + object histories'
